@@ -361,6 +361,8 @@ def call_builtin(models, eng, name, args, kws, st, node):
             if b.off.op == 'int' and b.off.args[0] == 0:
                 return [(st, st.alloc(OBytearray(b.arr, b.len), 'bytearray'))]
         raise OutOfReach('bytearray(%r)' % (a0,))
+    if name in ('binascii.hexlify', 'binascii.unhexlify'):
+        return [(st, eng.fresh_bytes(st, 'hex'))]
     if name in ('str', 'repr', 'hex', 'format'):
         if name == 'str' and isinstance(a0, VStr):
             return [(st, a0)]
@@ -468,6 +470,9 @@ def call_builtin(models, eng, name, args, kws, st, node):
         if not args:
             return [(st, st.alloc(ODict({('str', k): v for k, v in kws.items()}), 'dict'))]
         raise OutOfReach('dict(args)')
+    if name in ('struct.pack', 'struct.unpack', 'struct.calcsize'):
+        from . import structmodel
+        return structmodel.call(models, eng, name, args, kws, st)
     if name == 'int.to_bytes':
         return int_to_bytes(models, eng, args, kws, st)
     if name == 'int.from_bytes':
@@ -678,6 +683,9 @@ def construct_class(models, eng, cls, args, kws, st, node):
     if name == 'ListContainer':
         if not args:
             return [(st, st.alloc(OList(items=(), cls='ListContainer'), 'list'))]
+    if name in ('EnumInteger', 'BitwisableString', 'HexDisplayedBytes', 'HexDumpDisplayedBytes', 'HexDisplayedDict', 'HexDumpDisplayedDict') and len(args) == 1:
+        # display subclasses of int/str/bytes/dict: modelled as their base value (== and hashing are inherited)
+        return [(st, args[0])]
     if models.interface is not None:
         r = models.interface.construct_class(eng, cls, args, kws, st, node)
         if r is not None:
@@ -739,6 +747,8 @@ def call_method(models, eng, recv, name, args, kws, st, node):
                 return [(st, VIter('concrete', items=list(o.items.values())))]
             if name == 'keys':
                 return [(st, VIter('concrete', items=[eng.from_const(k[1] if len(k) > 1 else None, st) for k in o.items]))]
+    if recv.kind == 'map' and models.interface is not None:
+        return models.interface.map_method(eng, recv, name, args, kws, st)
     if isinstance(recv, VBytes):
         if name == 'join':
             a0 = args[0]
@@ -822,8 +832,8 @@ def havoc_object(eng, st, ref, name, writes=True):
     elif isinstance(o, OList):
         ek = o.ekind if not o.concrete else None
         if o.concrete:
-            # a list built in the loop: element kind from the loop spec or the first element; default ints
-            ek = 'int'
+            # a list built in the loop: element kind from the loop spec or the first element
+            ek = 'val' if o.cls == 'ListContainer' else 'int'
             if o.items and not all(isinstance(x, (VInt, VBool)) for x in o.items):
                 ek = 'val'
         ln = fresh(name + '_len', t.INT)
